@@ -225,6 +225,9 @@ func Convert(graph gdbi.GraphInterface, dataType gdbi.DataType, markTypes map[st
 
 	case gdbi.AggregationData:
 		agg := t.GetAggregation()
+		if agg == nil {
+			return &gripql.QueryResult{Result: &gripql.QueryResult_Aggregations{}}
+		}
 		sValue, _ := structpb.NewValue(agg.Key)
 		return &gripql.QueryResult{
 			Result: &gripql.QueryResult_Aggregations{
